@@ -105,11 +105,20 @@ def symStep (st : SymState) (ij : Nat × Nat) : SymState :=
   else
     (upd2 S i j (S j i), upd2 L i j (wrap8 (-(L j i))))
 
-/-- `for i in range(N): for j in range(i+1, N)` in loop order -/
-def upperPairs (N : Nat) : List (Nat × Nat) :=
-  (List.range N).flatMap fun i => ((List.range N).filter (fun j => i < j)).map fun j => (i, j)
+/-- the inner loop `for j in range(i+1, N)` written as `for j in range(n): if i < j`;
+state after `n` values of `j` -/
+def symRow (i : Nat) : Nat → SymState → SymState
+  | 0, st => st
+  | j+1, st =>
+    let st' := symRow i j st
+    if i < j then symStep st' (i, j) else st'
 
-def symmetrize (N : Nat) (st : SymState) : SymState := (upperPairs N).foldl symStep st
+/-- the outer loop: state after the rows `i < n` -/
+def symAll (N : Nat) : Nat → SymState → SymState
+  | 0, st => st
+  | i+1, st => symRow i N (symAll N i st)
+
+def symmetrize (N : Nat) (st : SymState) : SymState := symAll N N st
 
 /-! ## histogram walks of the C routines -/
 
@@ -199,6 +208,11 @@ def xcorrSq (x : Nat → Nat → Rat) (T tauMax i j lag : Nat) : Rat :=
 `2·rank_i = 2·#{x_j < x_i} + #{x_j = x_i} + 1` -/
 def rank2 (n : Nat) (x : Nat → Rat) (i : Nat) : Nat :=
   2 * countTo n (fun j => decide (x j < x i)) + countTo n (fun j => decide (x j = x i)) + 1
+
+/-- Spearman's rho (signed square) of two series on `k < n`: Pearson of the average ranks
+(`SpearmanClimateNetwork._calculate_correlation`: `corrcoef(rank_time_series(anomaly))`) -/
+def spearmanSq (n : Nat) (f g : Nat → Rat) : Rat :=
+  pearsonSq n (fun i => (rank2 n f i : Rat)) (fun i => (rank2 n g i : Rat))
 
 /-- ordinal rank `argsort(argsort(x))` for a stable sort (0-based) -/
 def rankOrd (n : Nat) (x : Nat → Rat) (i : Nat) : Nat :=
